@@ -161,8 +161,9 @@ structure Pod where
   evictPrio : Int             -- GetPodEvictionPriority (0 when absent / invalid)
   labelPrio : Option Int      -- label koordinator.sh/priority parsed by strconv.Atoi
   hasMetric : Bool            -- the pod usage metric query succeeded
-  used      : Int             -- usage credited to PodEvictInfo (MemoryUsed / MilliCPUUsed)
-  request   : Int             -- MemoryRequest / MilliCPURequest
+  used      : Int             -- int64(metric*1000): MemoryUsed (sic, priority path) / MilliCPUUsed
+  request   : Int             -- GetRequestTypeAndValueFromPod: MemoryRequest / MilliCPURequest
+  batchReq  : Int             -- sum of the positive batch-cpu container requests (BE CPU path)
 deriving Repr, DecidableEq
 
 /-- PodEvictInfo as far as sorting is concerned. -/
@@ -198,13 +199,17 @@ def prioLess (byReq : Bool) (a b : Info) : Bool :=
   if byReq then a.request > b.request else a.used > b.used
 
 /-- the filter of getSortedBEPodInfos / getBEPodEvictInfoAndSort (one pod);
-    `usage used request` is the order-embedding of `float64(used)/float64(request)`. -/
-def beInfo? (usage : Int → Int → Int) (p : Pod) : Option Info :=
+    `usage used request` is the order-embedding of `float64(used)/float64(request)`.
+    Memory: `MemoryUsed = int64(metric)` (`usedDiv = 1000`, no request); CPU: `MilliCPUUsed =
+    int64(metric*1000)` (`usedDiv = 1`) and the batch-cpu request.  No metric = usage 0. -/
+def beInfo? (usage : Int → Int → Int) (usedDiv : Int) (cpu : Bool) (p : Pod) : Option Info :=
   if !p.qosBE then none else
   if !policyAllowed p.policy then none else
+  let used := if p.hasMetric then Int.tdiv p.used usedDiv else 0
+  let req := if cpu then p.batchReq else 0
   some { pod := p, prio := p.specPrio.getD 0, labelPrio := 0, evictPrio := 0,
-         used := if p.hasMetric then p.used else 0, request := p.request,
-         usageKey := if p.request > 0 then usage (if p.hasMetric then p.used else 0) p.request else 0 }
+         used := used, request := req,
+         usageKey := if req > 0 then usage used req else 0 }
 
 /-- the `less` of getSortedBEPodInfos (memory): priority, then usage descending with
     zero-usage pods last, zero-usage pods by name descending. -/
@@ -244,10 +249,10 @@ def selectPrio (threshold : Int) (byReq : Bool) (pods : List Pod) : List Info :=
   isort (prioLess byReq) (pods.filterMap (prioInfo? threshold))
 
 def selectBEMem (pods : List Pod) : List Info :=
-  isort beMemLess (pods.filterMap (beInfo? fun _ _ => 0))
+  isort beMemLess (pods.filterMap (beInfo? (fun _ _ => 0) 1000 false))
 
 def selectBECpu (usage : Int → Int → Int) (pods : List Pod) : List Info :=
-  isort beCpuLess (pods.filterMap (beInfo? usage))
+  isort beCpuLess (pods.filterMap (beInfo? usage 1 true))
 
 /-! ### release targets (integer parts)
   memoryevict.calculateReleaseByUsedThresholdPercent / cpuevict.calculateMilliReleaseByUsedThresholdPercent:
